@@ -164,7 +164,10 @@ impl Port for U3VDeviceModule {
         let address = address as usize;
         let len = buf.len();
 
-        let data = self.vm.read_raw(address..address + len)?;
+        let end = address
+            .checked_add(len)
+            .ok_or(GenTlError::InvalidAddress)?;
+        let data = self.vm.read_raw(address..end)?;
         buf.copy_from_slice(data);
 
         Ok(len)
